@@ -356,6 +356,10 @@ def upstream_scripts():
     add("garbage-cr", b"ERR\r20 text/gemini", b"x", hdr_cls="badStatus")
     add("garbage-lf-header", b"\n20 text/gemini\nINJECTED", b"x", hdr_cls="badStatus")
     add("garbage-long", b"X" * 3000 + b" y", b"x", hdr_cls="badStatus")
+    # status tokens that are not two ASCII digits although int() reads them as numbers: malformed, never "cleaned up"
+    for nm_, tok_ in (("plus", b"+20"), ("underscore", b"2_0"), ("leadingzero", b"020"), ("fullwidth", "\uff12\uff10".encode()),
+                      ("arabic", "\u0662\u0660".encode()), ("tab", b"\t20"), ("lf", b"20\n"), ("nbsp", "\u00a051".encode()), ("plus61", b"+6_1")):
+        add("garbage-status-" + nm_, tok_ + b" text/gemini", b"x", hdr_cls="badStatus")
     add("bad-utf8-header", b"20 text/\xff\xfe", b"x", hdr_cls="badUtf8")
     add("status-99", b"99 odd", b"x", status=99)
     add("status-05", b"05 odd", b"x", status=5)
